@@ -73,8 +73,8 @@ func (l *raceLog) poll() *raceReport {
 				if k := strings.Index(f, "go-moremath/"); k >= 0 {
 					f = f[k+len("go-moremath/"):]
 				}
-				if k := strings.Index(f, "("); k > 0 {
-					f = f[:k]
+				if strings.HasSuffix(f, "()") {
+					f = f[:len(f)-2]
 				}
 				found = f
 				break
